@@ -17,7 +17,7 @@ from . import c04, c05
 from .labelrun import CAP, LBLMAX
 
 INFO = {
-    "explanation": "Delegated (round 4): R03.2/R03.4 - candidates are ranked by score and consumed by the record layout the generator produces, so label values never decide the matching. WIDTH domain, input dtype enumerated over uint8/16/32/64 with labels up to the dtype maximum (uint8/16) or < 2^24: (R09.1) every arithmetic result of the pair encoding in _calc_overlapping_labels (pointwise symbolic run) is bounded at the vertices of the label domain and fits the container numpy gives it; (R09.2) the whole-pair crop performs no wrapping arithmetic on label arrays; (R09.3) relabelling containers (delegated to the R04 rules: lookup tables, casts, fresh labels); (R09.4) the dtype selector holds its argument and the post-approximation dtype is sized from the component ids (delegated R05.3/R05.4); (R09.5) no other arithmetic on label arrays exists in the package (labels are otherwise compared, looked up, or passed to unique/isin). Also delegated: R05.6 (dtype of the semantic arrays before labelling fits both label ranges). Further: R09.6 (label enumeration helpers on a domain of sets of present values), float64-exactness of uint64-scalar arithmetic (R09.1); delegated R13.1 (global masks binarised before any narrowing cast), R15.8. Round 6: R09.6 covers signed label arrays: negative values are labels too (`> 0` and `!= 0` differ). Round 8: R03.1 is delegated for every helper of the encoder signature (pair codes are taken apart with a radix above every reference label - label sets with gaps); np.unique(..., return_counts=True) and zip over its results are interpreted pointwise.",
+    "explanation": "Delegated (round 4): R03.2/R03.4 - candidates are ranked by score and consumed by the record layout the generator produces, so label values never decide the matching. WIDTH domain, input dtype enumerated over uint8/16/32/64 with labels up to the dtype maximum (uint8/16) or < 2^24: (R09.1) every arithmetic result of the pair encoding in _calc_overlapping_labels (pointwise symbolic run) is bounded at the vertices of the label domain and fits the container numpy gives it; (R09.2) the whole-pair crop performs no wrapping arithmetic on label arrays; (R09.3) relabelling containers (delegated to the R04 rules: lookup tables, casts, fresh labels); (R09.4) the dtype selector holds its argument and the post-approximation dtype is sized from the component ids (delegated R05.3/R05.4); (R09.5) no other arithmetic on label arrays exists in the package (labels are otherwise compared, looked up, or passed to unique/isin). Also delegated: R05.6 (dtype of the semantic arrays before labelling fits both label ranges). Further: R09.6 (label enumeration helpers on a domain of sets of present values), float64-exactness of uint64-scalar arithmetic (R09.1); delegated R13.1 (global masks binarised before any narrowing cast), R15.8. Round 6: R09.6 covers signed label arrays: negative values are labels too (`> 0` and `!= 0` differ). Round 8: R03.1 is delegated for every helper of the encoder signature (pair codes are taken apart with a radix above every reference label - label sets with gaps); np.unique(..., return_counts=True) and zip over its results are interpreted pointwise. Round 9: (R09.6) label enumeration piece by piece: a package generator verified to hand out its array in consecutive slices along the first axis, every row once, gives the enumeration domain two generic pieces; tests on a piece are input classes that narrow what it may hold; the result is exact iff every piece is collected whole or known to hold zeros only (negative labels of signed maps are labels too).",
     "trusted_base": ["numpy 1.x promotion rules (DESIGN appendix A.4; pyproject pins numpy ^1.20)", "np.unique / np.isin / equality are label-value agnostic"],
     "assumptions": ["labels lie in the property's domain [1, 2^24) (or up to the dtype maximum for uint8/uint16)"],
     "not_decided": ["invariance of cc3d / scipy kernels under relabelling", "tie-breaking between equal scores (excluded by the property)"],
